@@ -353,7 +353,7 @@ def run(chk) -> None:
         if la == "ok":
             continue
         lang = case["seed"]
-        deep = case["big"] >= 3000 and bool({"nestParens", "longExpr"} & set(case["faults"]))
+        deep = case["big"] >= 3000 and bool({"nestParens", "longExpr", "nestBlocks"} & set(case["faults"]))
         flood = case["big"] >= 3000 and "quoteFlood" in case["faults"]
         if la == "RuleFailed":
             for f in v["fails"]:
